@@ -52,6 +52,35 @@ P = {
             "Theorems headers_cfg_ref_eq, request_cfg_ref_eq, response_cfg_ref_eq, ignored_line_nul_cr (Thm/C14.v): under all 16 header-option "
             "sets the header machine equals the reference parser parameterised by the same options.",
             "Coq proof: model = reference parser for all option sets, + correspondence on line-template products"),
+    "C02": ("proof",
+            "Theorems request/response/headers/chunk_stable, prefix_not_final, partial_fields_final, chunking_irrelevant (Thm/C02.v): "
+            "if the model returns Complete or Err on buf, it returns the identical result (status, fields, exposed headers, array) on "
+            "buf ++ ext for every ext; fields reported with Partial are final; any chunking of a stream reaches the same answer.",
+            "Coq proof (stability of the reference parsers under append, transported by the refinement), + all-prefix differential runs"),
+    "C04": ("proof",
+            "Theorems request/response/header_slices_in_order, chain_zero_copy, model_request_slices (Thm/C04.v): every slice is a sub-slice "
+            "of the buffer with the buffer's bytes, inside buf[..n] on Complete(n), and method, path/reason, name, value ... form a "
+            "non-overlapping increasing chain. PARTIAL: the static (lifetime) half is not formalised; it is not covered by a theorem.",
+            "Coq proof (chain invariant over the reference parsers + refinement), + pointer-range differential runs"),
+    "C10": ("proof",
+            "Theorems error_kind_eq, request_line/status_line/header_line_error_kinds, stage_error_kinds, too_many_iff (Thm/C10.v): the model "
+            "reports the reference's classification; each reference stage raises only the kind of its own element; TooManyHeaders iff the "
+            "(cap+1)-th header line completes.",
+            "Coq proof (refinement + per-stage error-kind lemmas + capacity law), + correspondence on 256-value sweeps"),
+    "C15": ("proof",
+            "Theorems request_options_conservative, response_options_conservative (with the stated reason-stripping exception made precise), "
+            "request_ignores_response_options, response_ignores_request_options (Thm/C15.v).",
+            "Coq proof over the reference parsers + refinement, + 128-config metamorphic runs"),
+    "C16": ("proof",
+            "Theorems request/response_entries_agree, parse_headers_agrees (position independence of the header reference), "
+            "request/response_header_part (Thm/C16.v).",
+            "Coq proof (refinement corollaries + shift lemma), + pairwise entry-point differential runs"),
+    "C17": ("proof",
+            "Theorems complete_count, capacity_law, non_complete_restores (Thm/C17.v): exposed headers = the reference's list = the first k "
+            "slots, slots beyond k untouched; outcome with capacity cap = outcome with any larger capacity unless more than cap headers "
+            "complete (then TooManyHeaders); after Partial/Err the initialised entry points expose the whole array, the uninit ones leave "
+            "`headers` untouched.",
+            "Coq proof (refinement corollaries + capacity law by induction), + sentinel/poison array differential runs"),
     "C18": ("proof",
             "Theorems request/response_history_independent, reuse_equals_fresh (Thm/C18.v): status, and the whole value on Complete, are "
             "functions of (entry, config, buffer, capacity) for any prior value -- hence for any history of calls.",
